@@ -14,6 +14,9 @@ Definition enc_env (l : list (str * str)) : list (list N) :=
   flat_map (fun kv : str * str => [fst kv; snd kv]) l.
 """
 GROUP_NAMES = ["g", "serial", "db-tests", "é"]
+# the naming of the model's numbered groups used by test_env (a function of the record alone)
+PRELUDE_E += "Definition gnames (k : N) : str := nth (N.to_nat (k mod %d)) [%s] [].\n" % (
+    len(GROUP_NAMES), "; ".join(coq_str(n) for n in GROUP_NAMES))
 
 
 def corpus():
@@ -39,10 +42,10 @@ def env_check(chk, rows, r, thorough):
     exprs, want = [], []
     for gs, g, grs in ctxs:
         name = None if g is None else GROUP_NAMES[g % len(GROUP_NAMES)]
-        gname = "None" if name is None else f"(Some {coq_str(name)})"
         grp = "None" if g is None else f"(Some ({g}, {grs}))"
         gopt = "None" if g is None else f"(Some {g})"
-        exprs.append(f"enc_env (slot_env {gname} (mkrun (mkitem 0 1 {gopt}) {gs} {grp}))")
+        # group name from the item's group, slots from the context (C14_env_of_record)
+        exprs.append(f"enc_env (test_env gnames (mkrun (mkitem 0 1 {gopt}) {gs} {grp}))")
         want.append({"NEXTEST_TEST_GLOBAL_SLOT": str(gs),
                      "NEXTEST_TEST_GROUP": name if name is not None else "@global",
                      "NEXTEST_TEST_GROUP_SLOT": str(grs) if g is not None else "none"})
